@@ -162,12 +162,12 @@ def _calls_ob(name, lo, hi):
         E = sym.Engine(ctx, max_paths=100000, incremental=True)
         found = E.explore(h)
         seen = set()
-        for label, m, pc in found:
+        for (label, m, pc), A in list(zip(found, E.autosnaps)):
             if label in seen:
                 continue
             seen.add(label)
-            a, b = (choice.value_in_model(m, x) for x in h.state)
-            ctx.report(label, {"stmts": list(a[0]) + list(b[0]), "expected": choice.value_in_model(m, h.want)}, replay_calls)
+            a, b = (choice.value_in_model(m, x) for x in A["state"])
+            ctx.report(label, {"stmts": list(a[0]) + list(b[0]), "expected": choice.value_in_model(m, A["want"])}, replay_calls)
         if E.reached.get("correlated"):
             ctx.twins += 1
         else:
@@ -265,12 +265,12 @@ def assoc(ctx):
     E = sym.Engine(ctx, max_paths=50000, incremental=True)
     found = E.explore(h)
     seen = set()
-    for label, m, pc in found:
+    for (label, m, pc), A in list(zip(found, E.autosnaps)):
         if label in seen:
             continue
         seen.add(label)
-        o, i, c1, c2 = (choice.value_in_model(m, x) for x in h.state)
-        ctx.report(label, {"slots": [o[0], i[0][0], c1[0], i[0][1], c2[0]], "expected": choice.value_in_model(m, h.want)}, replay_assoc)
+        o, i, c1, c2 = (choice.value_in_model(m, x) for x in A["state"])
+        ctx.report(label, {"slots": [o[0], i[0][0], c1[0], i[0][1], c2[0]], "expected": choice.value_in_model(m, A["want"])}, replay_assoc)
     if E.reached.get("correlated"):
         ctx.twins += 1
     else:
